@@ -10,6 +10,8 @@ Open Scope string_scope.
 Open Scope N_scope.
 
 (* ---------- the expression fragment ---------- *)
+Fixpoint pairs_len (l : eplist) : Z := match l with PNil => 0 | PCons _ _ t => 1 + pairs_len t end.
+
 Fixpoint efrag (e : expr) : bool :=
   match e with
   | ENum _ | EBool _ | EStr _ | EVar _ => true
@@ -17,10 +19,13 @@ Fixpoint efrag (e : expr) : bool :=
   | EUn UMinus e1 | EUn UBang e1 => efrag e1
   | EBin _ _ _ l r | EIndex l r => efrag l && efrag r
   | EArr l => efrag_list l
+  | EMap kvs np => Z.eqb np (pairs_len kvs) && efrag_pairs kvs   (* len(Pairs) = len(Order): no key twice *)
   | _ => false
   end
 with efrag_list (l : elist) : bool :=
-  match l with ENil => true | ECons e t => efrag e && efrag_list t end.
+  match l with ENil => true | ECons e t => efrag e && efrag_list t end
+with efrag_pairs (l : eplist) : bool :=
+  match l with PNil => true | PCons _ e t => efrag e && efrag_pairs t end.
 
 
 Definition ofrag (o : oexpr) : bool := match o with ONoneE => true | OSome e => efrag e end.
